@@ -77,7 +77,10 @@ struct Case
         a.optionalNum("idleGap", idleGap);
         a.optionalNum("warmup", warmup);
         a.optionalNum("copyAt", copyAt);
+        a.optionalNum("crowd", crowd);
     }
+    uint16_t crowd{0};  // > 0: that many further endpoints (different device ids, ONE stream id) send the first segment of a two-segment
+                        // message before the script and the last segment after it - hundreds of messages in flight at once
     uint16_t copyAt{0};  // > 0: after frame number copyAt-1 the decoder is copied; from then on the copy receives every frame too (after the
                          // original) and must deliver the same packets - a copy of a decoder is a decoder with the same history, and a
                          // separate one
@@ -254,6 +257,29 @@ static Verdict runCase(const Case& c, Info& info)
     // open-message tracking for classification
     std::vector<bool> open(streams.size(), false);
     bool gapDone = false;
+    auto crowdFrame = [&](uint16_t k, int part) {
+        wire::MsgHdr mh;
+        mh.timestamp = 0x5000 + k;
+        mh.idWord = k;
+        mh.payloadType = 0x20;
+        mh.flags = static_cast<uint8_t>((part == 0 ? wire::kSegFirst : wire::kSegLast) << 2);
+        Bytes chunk = fillBytes(k * 2u + static_cast<uint32_t>(part), part == 0 ? 6 : 3);
+        mh.length = static_cast<uint16_t>(chunk.size());
+        Bytes frame;
+        wire::CmpHdr h{1, 0, static_cast<uint16_t>(0x6000 + k), wire::kMtData, 0x6B, static_cast<uint16_t>(700 + part)};
+        wire::putCmpHdr(frame, h);
+        wire::putBytes(frame, wire::buildMessage(mh, chunk));
+        return frame;
+    };
+    for (uint16_t k = 0; k < c.crowd; ++k)
+    {
+        Bytes frame = crowdFrame(k, 0);
+        auto cg = decodeOwned(dec, frame);
+        auto ce = ref.feed(frame);
+        VF_CHECK(cg.size() == ce.size(), "crowd endpoint " << k << " first segment: decoder returned " << cg.size() << " packets, expected " << ce.size());
+    }
+    if (c.crowd)
+        info.tag("hundreds_of_endpoints_on_one_stream_id_in_flight");
     if (c.warmup)
     {
         uint16_t wdev = 0x7A7A;
@@ -291,8 +317,9 @@ static Verdict runCase(const Case& c, Info& info)
         auto exp = ref.feed(bf.bytes);
         if (c.copyAt && i + 1 == c.copyAt && !copy)
         {
-            copy = std::make_unique<lib::Decoder>(dec);
-            info.tag("decoder_copied_mid_stream_and_both_used");
+            copy = copyIfCopyable(dec);
+            if (copy)
+                info.tag("decoder_copied_mid_stream_and_both_used");
         }
         else if (copy)
         {
@@ -358,6 +385,15 @@ static Verdict runCase(const Case& c, Info& info)
             info.tag("idle_gap_of_foreign_frames_inside_open_message");
         }
     }
+    for (uint16_t k = 0; k < c.crowd; ++k)
+    {
+        Bytes frame = crowdFrame(k, 1);
+        auto cg = decodeOwned(dec, frame);
+        auto ce = ref.feed(frame);
+        VF_CHECK(cg.size() == ce.size(), "crowd endpoint " << k << " (device " << (0x6000 + k) << ", stream 107) last segment: decoder returned " << cg.size() << " packets, expected " << ce.size());
+        for (size_t q = 0; q < ce.size(); ++q)
+            VF_TRY(compareDelivered(*cg[q], ce[q], "crowd endpoint " + std::to_string(k)));
+    }
     if (contextSwitch)
         info.tag("context_switch_inside_open_message");
     if (wrapInside)
@@ -397,6 +433,9 @@ static rc::Gen<Case> genCase(int tier)
         // one case in twenty: a long-lived decoder that has already delivered 1 / 2 / 4 MiB of segmented traffic
         if (*range<int>(0, 19) == 0)
             c.warmup = *rc::gen::weightedOneOf<uint32_t>({{3, range<uint32_t>(17, 22)}, {1, range<uint32_t>(35, 40)}, {1, range<uint32_t>(70, 75)}});
+        // one case in twenty: hundreds of further endpoints on one stream id have a message in flight during the whole script
+        if (*range<int>(0, 19) == 0)
+            c.crowd = *rc::gen::weightedOneOf<uint16_t>({{3, range<uint16_t>(250, 262)}, {1, range<uint16_t>(1020, 1030)}, {1, range<uint16_t>(60, 70)}});
         // one case in six: the decoder is copied somewhere in the stream and both objects go on receiving it
         if (*range<int>(0, 5) == 0)
             c.copyAt = *range<uint16_t>(1, 30);
@@ -416,7 +455,7 @@ static rc::Gen<Case> genCase(int tier)
             ep.version = *rc::gen::weightedOneOf<uint8_t>({{3, rc::gen::just<uint8_t>(1)}, {1, range<uint8_t>(1, 255)}});
             ep.msgType = *rc::gen::weightedOneOf<uint8_t>({{4, rc::gen::just<uint8_t>(1)}, {2, rc::gen::element<uint8_t>(2, 3, 0xFF)}, {1, range<uint8_t>(1, 255)}});
             ep.startSeq = *rc::gen::weightedOneOf<uint16_t>(
-                {{4, rc::gen::element<uint16_t>(0, 1, 100, 65530, 65531, 65532, 65533, 65534, 65535)}, {1, anyInt<uint16_t>()}});
+                {{4, rc::gen::element<uint16_t>(0, 1, 100, 65530, 65531, 65532, 65533, 65534, 65535, 32765, 32766, 32767)}, {1, anyInt<uint16_t>()}});
             int nMsg = *range<int>(1, tier ? 8 : 5);
             for (int m = 0; m < nMsg; ++m)
             {
@@ -509,6 +548,8 @@ static void normalizeCase(Case& c)
         c.schedule.resize(64);
     if (c.warmup > 80)
         c.warmup = c.warmup % 81;
+    if (c.crowd > 1100)
+        c.crowd = static_cast<uint16_t>(c.crowd % 1101);
     if (c.copyAt > 4000)
         c.copyAt = static_cast<uint16_t>(c.copyAt % 4001);
     std::set<std::pair<uint16_t, uint8_t>> seen;
@@ -516,6 +557,8 @@ static void normalizeCase(Case& c)
     size_t frames = 0, bytes = 0;
     for (auto& ep : c.eps)
     {
+        if (ep.stream == 0x6B && ep.dev >= 0x6000 && ep.dev < 0x6000 + 1101)
+            ep.stream = 0x6C;  // reserved for the crowd
         if ((ep.stream == 0x7A || ep.stream == 0x7B) && (ep.dev == 0x7A7A || ep.dev == 0x7A7B))
             ep.dev = 0x7A7C;  // reserved for the foreign traffic of the idle gap / the warm-up
         if (!seen.insert({ep.dev, ep.stream}).second)
